@@ -79,6 +79,17 @@ def payload_text(p):
     return "".join({1: "Q", 2: "=", 4: " ", 5: "\n"}.get(c, outside[i % len(outside)]) for i, c in enumerate(p))
 
 
+def payload_is_bad(p):
+    """Mirror of SASL.tla's PClass(p) = "bad" for messages only (the verdict is TLC's)."""
+    q = [c for c in p if c not in (4, 5)]
+    if q in ([], [2]):
+        return False
+    if len(q) % 4 or any(c not in (1, 2) for c in q):
+        return True
+    pads = [i for i, c in enumerate(q) if c == 2]
+    return any(i < len(q) - 2 for i in pads) or (bool(pads) and q[-1] != 2)
+
+
 def strip(e):
     return {k: v for k, v in e.items() if k != "_line"}
 
